@@ -100,7 +100,7 @@ def subchecks(tier):
                         rule="capacitated pre-emptive slots, heavy load, long services (several slots); non-trivial = >= 2 slot interruptions"),
         system_subcheck("system", prof, lambda spec: [ScheduleMonitor(spec)], nontrivial, classes=classes, obs=True, log=True,
                         n={"quick": 7200, "thorough": 40000}, rule="scheduled / slotted nodes vs closed-form timetable"),
-        system_subcheck("sched_blocked", common.region_profile("C12", excluded=("sched_reroute_blocked", "sched_preempt_blocked_cc"), more_weights={"sched_reroute": 0.35}),
+        system_subcheck("sched_blocked", common.region_profile("C12", excluded=(), more_weights={"sched_reroute": 0.35}),
                         lambda spec: [ScheduleMonitor(spec)], lambda a, spec, res: a.get("interruptions", 0) >= 1 and a.get("blocked_records", 0) >= 1,
                         classes=classes, obs=True, log=True, n={"quick": 4800, "thorough": 30000},
                         rule="pre-emptive schedules x blocking region (heavy load, grid times); same timetable monitor"),
